@@ -36,6 +36,7 @@ THEOREMS = [
     "MCHap.C18.swap_self_perm",
     "MCHap.C18.jointWith_perm",
     "MCHap.C18.swap_self_joint",
+    "MCHap.C18.ped_mh_vector",
     "MCHap.C18.hyper_allele_step",
     "MCHap.C18.unknown_allele_step",
     "MCHap.C18.kappa_of_fixed_weights",
